@@ -58,12 +58,23 @@ def floaty(arg) -> bool:
     return False
 
 
+def ppq_variable(ctx, f: FuncInfo) -> str:
+    """The ticks-per-quarter variable: the name given to MidiFile(ticks_per_beat=...) (a parameter or local)."""
+    for n in own_nodes(f.node):
+        if isinstance(n, ast.Call) and norm(n.func).endswith("MidiFile"):
+            v = next((k.value for k in n.keywords if k.arg == "ticks_per_beat"), None)
+            if isinstance(v, ast.Name):
+                return v.id
+    raise AnalysisError("F10", f.qname, "MidiFile(ticks_per_beat=<name>) not found")
+
+
 def rule_F10(ctx, qname: str, ppq_name: str, floor: int):
     ctx.rule("F10", "every float->int conversion that produces a MIDI tick (its argument mentions the ticks-per-quarter "
                     "variable and can be non-integral) applies round/np.round/np.rint first: truncation is off by one "
                     "tick whenever the float product lands one ulp below an integer")
     f = ctx.prog.func(qname, "F10")
     ctx.touch(f)
+    ppq_name = ppq_variable(ctx, f)
     n = 0
     for g, call, arg in tick_conversions(ctx.prog, f, ppq_name):
         if not floaty(arg):
@@ -142,11 +153,14 @@ def rule_ppq_defuse(ctx):
     assigned_inside = any(isinstance(x, ast.Name) and x.id == name and isinstance(x.ctx, ast.Store) for x in ast.walk(conv[0].node))
     ctx.check(uses and not assigned_inside, "PPQ", f"{conv[0].qname}:multiplier", func=conv[0], construct="to_ppq-multiplier",
               msg=f"to_ppq must scale by the very `{name}` written into the file header")
-    # every tick position goes through to_ppq: keys of events/meta_events/tempos
+    # every tick position goes through to_ppq: keys of the two-level event tables (defaultdict(lambda: defaultdict(list)))
+    tables = {norm(a.targets[0]) for a in own_nodes(f.node) if isinstance(a, ast.Assign) and isinstance(a.value, ast.Call)
+              and norm(a.value.func) == "defaultdict" and a.value.args and isinstance(a.value.args[0], ast.Lambda)}
+    ctx.require(len(tables) >= 2, "PPQ", f.qname, "event tables not found")
     bad = []
     n_keys = 0
     for n in own_nodes(f.node):
-        if isinstance(n, ast.Subscript) and isinstance(n.value, ast.Subscript) and norm(n.value.value) in ("events", "meta_events") \
+        if isinstance(n, ast.Subscript) and isinstance(n.value, ast.Subscript) and norm(n.value.value) in tables \
                 and isinstance(getattr(n, "_parent", None), ast.Attribute):
             key = n.slice
             n_keys += 1
@@ -167,10 +181,18 @@ def rule_modes(ctx):
     ctx.rule("F6-modes", "map_to_track_channel (export) and assign_group_part_voice (import) dispatch on exactly the six "
                          "modes 0..5; the exporter raises for anything else and assigns both track and channel in every "
                          "branch; the importer assigns the part in every branch")
-    for q, need, must_raise in ((f"{EXP}:map_to_track_channel", ("track", "channel"), True),
-                                (f"{IMP}:assign_group_part_voice", ("part",), False)):
+    for q, which, must_raise in ((f"{EXP}:map_to_track_channel", "all", True),
+                                 (f"{IMP}:assign_group_part_voice", 1, False)):
         f = ctx.prog.func(q, "F6-modes")
         ctx.touch(f)
+        # the result tables, by role: the dicts read with .get(...) in the tuple that builds the result
+        gets = []
+        for n in own_nodes(f.node):
+            if isinstance(n, ast.Tuple) and n.elts and all(isinstance(e, ast.Call) and isinstance(e.func, ast.Attribute) and e.func.attr == "get"
+                                                           and isinstance(e.func.value, ast.Name) for e in n.elts) and len(n.elts) >= 2:
+                gets = [e.func.value.id for e in n.elts]
+        ctx.require(gets, "F6-modes", q, "result tuple of .get(...) lookups not found")
+        need = tuple(gets) if which == "all" else (gets[which],)
         chain = find_chain(f, "mode", 3)
         ctx.require(chain is not None, "F6-modes", q, "mode dispatch not found")
         br = lift_chain(chain, "mode")
@@ -329,33 +351,38 @@ def rule_clock_agreement(ctx):
     ctx.require(mf and st, "CLOCK", f.qname, "MidiFile / set_tempo construction not found")
     tpb = next((norm(k.value) for k in mf[0].keywords if k.arg == "ticks_per_beat"), None)
     tempo = next((norm(k.value) for k in st[0].keywords if k.arg == "tempo"), None)
-    ctx.check(tpb == "ppq" and tempo == "mpq", "CLOCK", f"{f.qname}: header uses ppq/mpq", func=f, node=mf[0],
+    ctx.check(tpb in f.all_params and tempo in f.all_params and tpb != tempo, "CLOCK", f"{f.qname}: header uses ppq/mpq", func=f, node=mf[0],
               construct="header-clock", msg=f"header written with ticks_per_beat={tpb}, tempo={tempo}; the tick formula uses ppq and mpq")
     n = 0
-    for g, call, arg in tick_conversions(ctx.prog, f, "ppq"):
+    for g, call, arg in tick_conversions(ctx.prog, f, tpb or "ppq"):
         n += 1
         inner = arg.args[0] if is_rounded(arg) and arg.args else arg
         txt = norm(inner)
-        ok = isinstance(inner, ast.BinOp) and isinstance(inner.op, ast.Div) and norm(inner.right) == "mpq" \
-            and "10 ** 6" in txt and "ppq" in norm(inner.left)
+        ok = isinstance(inner, ast.BinOp) and isinstance(inner.op, ast.Div) and norm(inner.right) == tempo \
+            and "10 ** 6" in txt and any(isinstance(x, ast.Name) and x.id == tpb for x in ast.walk(inner.left))
         ctx.check(ok, "CLOCK", f"{f.qname}:{txt[:40]}", func=f, node=call, construct=f"tick-formula:{txt[:30]}",
                   msg=f"`{txt}` is not of the form 10**6 * ppq * seconds / mpq")
     ctx.floor("CLOCK", "tick formulas in save_performance_midi", n, 7)
     g = ctx.prog.func(f"{IMP}:load_performance_midi", "CLOCK")
     ctx.touch(g)
-    ppq_def = [a for a in own_nodes(g.node) if isinstance(a, ast.Assign) and norm(a.targets[0]) == "ppq"]
-    ctx.check(len(ppq_def) == 1 and norm(ppq_def[0].value).endswith(".ticks_per_beat"), "CLOCK", f"{g.qname}: ppq is the file's",
-              func=g, construct="import-ppq", msg="ppq must be the file's ticks_per_beat and nothing else")
+    ppq_def = [a for a in own_nodes(g.node) if isinstance(a, ast.Assign) and norm(a.value).endswith(".ticks_per_beat") and isinstance(a.targets[0], ast.Name)]
+    ctx.check(len(ppq_def) == 1 and sum(1 for a in own_nodes(g.node) if isinstance(a, ast.Assign) and ppq_def and norm(a.targets[0]) == norm(ppq_def[0].targets[0])) == 1,
+              "CLOCK", f"{g.qname}: ppq is the file's", func=g, construct="import-ppq", msg="ppq must be the file's ticks_per_beat and nothing else")
+    ippq = norm(ppq_def[0].targets[0]) if ppq_def else "ppq"
+    tlist = {n.func.value.id for n in own_nodes(g.node) if isinstance(n, ast.Call) and isinstance(n.func, ast.Attribute) and n.func.attr == "append"
+             and isinstance(n.func.value, ast.Name) and n.args and isinstance(n.args[0], ast.Tuple) and len(n.args[0].elts) == 2
+             and any(isinstance(x, ast.Attribute) and x.attr == "tempo" for a in own_nodes(g.node) if isinstance(a, ast.Assign)
+                     and norm(a.targets[0]) == norm(n.args[0].elts[1]) for x in ast.walk(a.value))}
     calls = [n for n in own_nodes(g.node) if isinstance(n, ast.Call) and norm(n.func) == "adjust_time"]
     ctx.floor("CLOCK", "adjust_time call sites", len(calls), 7)
     for c in calls:
-        ok = len(c.args) == 3 and norm(c.args[1]) == "tempo_changes" and norm(c.args[2]) == "ppq" and norm(c.args[0]).endswith("_tick']")
+        ok = len(c.args) == 3 and norm(c.args[1]) in tlist and norm(c.args[2]) == ippq and norm(c.args[0]).endswith("_tick']")
         ctx.check(ok, "CLOCK", f"{g.qname}:{norm(c)[:50]}", func=g, node=c, construct=f"adjust_time-args:{norm(c.args[0])[:30]}",
                   msg=f"`{norm(c)[:80]}` must convert the event's own tick with the file's tempo list and ppq")
     pp = [n for n in own_nodes(g.node) if isinstance(n, ast.Call) and norm(n.func).endswith("PerformedPart")]
     ctx.require(pp, "CLOCK", g.qname, "PerformedPart construction not found")
     kw = {k.arg: norm(k.value) for k in pp[0].keywords}
-    ctx.check(kw.get("ppq") == "ppq", "CLOCK", f"{g.qname}: PerformedPart(ppq=ppq)", func=g, node=pp[0], construct="ppart-ppq",
+    ctx.check(kw.get("ppq") == ippq, "CLOCK", f"{g.qname}: PerformedPart(ppq=ppq)", func=g, node=pp[0], construct="ppart-ppq",
               msg="the performed part must carry the file's ppq")
 
 
@@ -373,14 +400,27 @@ def rule_note_pairing(ctx):
         f = ctx.prog.func(q, "F5e-pairing")
         ctx.touch(f)
         keys = [n for n in own_nodes(f.node) if isinstance(n, ast.Call) and norm(n.func) == "note_hash"]
-        ctx.check(len(keys) == 1 and [norm(a) for a in keys[0].args] == ["msg.channel", "msg.note"], "F5e-pairing",
+        msgv = "msg"
+        if keys:
+            p_ = getattr(keys[0], "_parent", None)
+            while p_ is not None and not (isinstance(p_, ast.For) and isinstance(p_.target, ast.Name)):
+                p_ = getattr(p_, "_parent", None)
+            if p_ is not None:
+                msgv = p_.target.id
+        ctx.check(len(keys) == 1 and [norm(a) for a in keys[0].args] == [f"{msgv}.channel", f"{msgv}.note"], "F5e-pairing",
                   f"{q}: key is note_hash(msg.channel, msg.note)", func=f, node=keys[0] if keys else None, construct="pairing-key",
                   msg="sounding notes must be keyed by (channel, pitch) of the message")
         start = end = None
+        flags = {}
+        for a in own_nodes(f.node):
+            if isinstance(a, ast.Assign) and isinstance(a.value, ast.Compare) and norm(a.value.left) == f"{msgv}.type" and isinstance(a.value.comparators[0], ast.Constant) \
+                    and isinstance(a.targets[0], ast.Name):
+                flags[a.value.comparators[0].value] = a.targets[0].id
+        on_v, off_v = flags.get("note_on", "note_on"), flags.get("note_off", "note_off")
         for n in own_nodes(f.node):
             if isinstance(n, ast.If):
                 t = norm(n.test)
-                if t in ("note_on and msg.velocity > 0", "msg.velocity > 0 and note_on"):
+                if t in (f"{on_v} and {msgv}.velocity > 0", f"{msgv}.velocity > 0 and {on_v}"):
                     start = n
                     if n.orelse and isinstance(n.orelse[0], ast.If):
                         end = n.orelse[0]
@@ -389,14 +429,15 @@ def rule_note_pairing(ctx):
         if end is not None:
             t = end.test
             disj = {norm(v) for v in t.values} if isinstance(t, ast.BoolOp) and isinstance(t.op, ast.Or) else {norm(t)}
-            ok = "note_off" in disj and any(d in disj for d in ("note_on and msg.velocity == 0", "msg.velocity == 0 and note_on"))
+            ok = off_v in disj and any(d in disj for d in (f"{on_v} and {msgv}.velocity == 0", f"{msgv}.velocity == 0 and {on_v}"))
         else:
             ok = False
         ctx.check(ok, "F5e-pairing", f"{q}: end guard", func=f, node=end, construct="end-guard",
                   msg="a note ends on note_off or on note_on with velocity 0 (running-status files)")
         if start is not None:
-            stores = [n for n in ast.walk(start) if isinstance(n, ast.Subscript) and isinstance(n.ctx, ast.Store) and norm(n.value) == "sounding_notes"]
-            dels = [n for n in ast.walk(end) if isinstance(n, ast.Delete) and "sounding_notes[note]" in norm(n)] if end is not None else []
+            stores = [n for n in ast.walk(start) if isinstance(n, ast.Subscript) and isinstance(n.ctx, ast.Store) and isinstance(n.value, ast.Name)]
+            tabs = {norm(n.value) for n in stores}
+            dels = [n for n in ast.walk(end) if isinstance(n, ast.Delete) and any(isinstance(t, ast.Subscript) and norm(t.value) in tabs for t in n.targets)] if end is not None else []
             ctx.check(bool(stores) and bool(dels), "F5e-pairing", f"{q}: open/close bookkeeping", func=f, construct="sounding-bookkeeping",
                       msg="a started note is stored in sounding_notes and removed when it ends (pairs each note-on with the *next* off)")
 
@@ -404,8 +445,10 @@ def rule_note_pairing(ctx):
 def rule_id_order(ctx):
     ctx.rule("ID-ORDER", "performed-note ids follow the sort key (note_on, midi_pitch, note_off, channel, track)")
     f = ctx.prog.func(f"{IMP}:load_performance_midi", "ID-ORDER")
-    sorts = [n for n in own_nodes(f.node) if isinstance(n, ast.Call) and norm(n.func) == "notes.sort"]
-    ctx.require(len(sorts) == 1, "ID-ORDER", f.qname, "notes.sort(...) not found")
+    sorts = [n for n in own_nodes(f.node) if isinstance(n, ast.Call) and isinstance(n.func, ast.Attribute) and n.func.attr == "sort"
+             and any(k.arg == "key" and isinstance(k.value, ast.Lambda) and isinstance(k.value.body, ast.Tuple) for k in n.keywords)]
+    ctx.require(len(sorts) == 1, "ID-ORDER", f.qname, "<notes>.sort(key=lambda x: (...)) not found")
+    lst = norm(sorts[0].func.value)
     key = next((k.value for k in sorts[0].keywords if k.arg == "key"), None)
     seq = []
     if isinstance(key, ast.Lambda) and isinstance(key.body, ast.Tuple):
@@ -416,7 +459,7 @@ def rule_id_order(ctx):
     ctx.check(seq == want, "ID-ORDER", f"{f.qname}: sort key", func=f, node=sorts[0], construct="id-sort-key",
               msg=f"ids are assigned in the order of the sort key {seq}; documented order is onset, pitch, offset, channel, track")
     # the id assignment follows the sort
-    idloop = [n for n in own_nodes(f.node) if isinstance(n, ast.For) and "enumerate(notes)" in norm(n.iter)]
+    idloop = [n for n in own_nodes(f.node) if isinstance(n, ast.For) and f"enumerate({lst})" in norm(n.iter)]
     ctx.check(bool(idloop) and idloop[0].lineno > sorts[0].lineno, "ID-ORDER", f"{f.qname}: ids after sort", func=f,
               construct="id-after-sort", msg="ids must be assigned after sorting")
 
@@ -434,7 +477,7 @@ def rule_message_kinds(ctx):
                 written.add(t.value)
     handled = set()
     for n in own_nodes(i.node):
-        if isinstance(n, ast.Compare) and norm(n.left) == "msg.type" and isinstance(n.comparators[0], ast.Constant):
+        if isinstance(n, ast.Compare) and isinstance(n.left, ast.Attribute) and n.left.attr == "type" and isinstance(n.comparators[0], ast.Constant):
             handled.add(n.comparators[0].value)
     ctx.require(len(written) >= 6, "F6-kinds", e.qname, f"message constructors not recognised: {written}")
     for k in sorted(written):
